@@ -167,3 +167,6 @@ Definition judge_tb_with (relab : bool) (f : proxy_case -> jstate -> event -> li
   judge_tb relab (fun pc evs os => j_run f pc (js_init (pc_cfg pc)) evs os).
 Definition judge_tb_hist : list bytes -> list bytes :=
   judge_tb true (fun pc evs os => j04_run pc (js_init (pc_cfg pc)) [] None evs os).
+(* C12: a request a backend sends on its connection is a request received over TCP like any other *)
+Definition judge_tb_hist12 : list bytes -> list bytes :=
+  judge_tb false (fun pc evs os => j12_run pc (js_init (pc_cfg pc)) [] [] evs os).
